@@ -36,6 +36,12 @@ for p in props:
 engines = {}
 for c in checks:
     engines.setdefault(c["engine"], []).append(c["property_id"])
+# specifications a check uses besides its main engine
+for name, pids in {"CacheCoherence": ["C20"], "SopCommit": ["C02", "C04", "C15"], "TxnStore": ["C02", "C04", "C05"]}.items():
+    for pid in pids:
+        if pid in claimed and pid not in engines.setdefault(name, []):
+            engines[name].append(pid)
+    engines[name].sort()
 man = {
     "version": 1,
     "setup_cmd": "./setup.sh",
